@@ -77,7 +77,9 @@ func (h *vRingQ) exec(t *testing.T, op []string) {
 	}
 }
 
-func (h *vRingQ) do(t *testing.T, f string, a ...any) { h.exec(t, strings.Fields(fmt.Sprintf(f, a...))) }
+func (h *vRingQ) do(t *testing.T, f string, a ...any) {
+	h.exec(t, strings.Fields(fmt.Sprintf(f, a...)))
+}
 
 func TestVerifRingQ(t *testing.T) {
 	l := vOpenLog(t)
